@@ -52,6 +52,19 @@ def sampleV3 : TzFile :=
 def sampleRule3 : Rule :=
   .alt ⟨⟨-10800, false, some (asc "-03")⟩, ⟨-7200, true, some (asc "-02")⟩, .mwd 3 5 0, -7200, .mwd 10 5 0, -3600⟩
 
+/-- the file of finding #10 (DESIGN.md §9): version 2, transitions at `0` and `i64::MAX − 5`, the
+second one switching to UTC+2; no footer.  `transition time + offset` exceeds `i64::MAX`. -/
+def sampleF10 : TzFile :=
+  { version := .V2
+    v1 := { trans := [], types := [⟨0, false, 0⟩], names := [0], leaps := [], stdWalls := [], utLocals := [] }
+    v2 := { trans := [(0, 0), (9223372036854775802, 1)]
+            types := [⟨0, false, 0⟩, ⟨7200, true, 4⟩]
+            names := asc "UTC" ++ [0] ++ asc "XDT" ++ [0]
+            leaps := []
+            stdWalls := []
+            utLocals := [] }
+    footer := [] }
+
 /-- offset of the footer's first newline in a written v2/v3 file -/
 def footerStart (f : TzFile) : Nat := (encodeTzif f).length - (f.footer.length + 2)
 
@@ -112,6 +125,28 @@ def sampleRules : List (Bool × Rule) := [
 
 theorem tz_roundtrip_samples :
     ∀ p ∈ sampleRules, RuleOk p.1 p.2 ∧ from_tz_string (renderTz p.2) p.1 = .ok p.2 := by
+  decide +kernel
+
+/-- (extensions?, text, rule): spellings OTHER than the canonical one — omitted DST offset, omitted
+`/time`, `+` signs, zero-padded fields, `hh:mm` / `hh:mm:ss` with zero parts, quoted all-letter names -/
+def sampleSpellings : List (Bool × List Nat × Rule) := [
+  (false, asc "EST5EDT,M3.2.0,M11.1.0", sampleRule2),
+  (true, asc "EST5EDT,M3.2.0,M11.1.0", sampleRule2),
+  (false, asc "EST+05:00:00EDT+04,M03.02.00/02:00:00,M11.1.0/2", sampleRule2),
+  (false, asc "<EST>5<EDT>,M3.2.0,M11.1.0", sampleRule2),
+  (true, asc "<-03>3<-02>,M3.5.0/-2,M10.5.0/-1", sampleRule3),
+  (true, asc "<-03>+3<-02>2,M3.5.0/-02:00,M10.5.0/-1:00:00", sampleRule3),
+  (false, asc "UTC0", .fixed (ltt 0 false "UTC")),
+  (false, asc "UTC-00:00", .fixed (ltt 0 false "UTC")),
+  (false, asc "HST10", .fixed (ltt (-36000) false "HST")),
+  (false, asc "NZST-12:00:00NZDT-13:00:00,M10.1.0/02:00:00,M3.3.0/02:00:00",
+    .alt ⟨ltt 43200 false "NZST", ltt 46800 true "NZDT", .mwd 10 1 0, 7200, .mwd 3 3 0, 7200⟩),
+  (false, asc "IST-2IDT,J1/0,365/24:59:59",
+    .alt ⟨ltt 7200 false "IST", ltt 10800 true "IDT", .julian1 1, 0, .julian0 365, 89999⟩),
+  (true, asc "AAA24:59:59BBB,0/167:59:59,J365/-167:59:59",
+    .alt ⟨ltt (-89999) false "AAA", ltt (-86399) true "BBB", .julian0 0, 604799, .julian1 365, -604799⟩)]
+
+theorem tz_spellings_samples : ∀ p ∈ sampleSpellings, from_tz_string p.2.1 p.1 = .ok p.2.2 := by
   decide +kernel
 
 /-- malformed rule texts (text, extensions?) -/
